@@ -53,7 +53,8 @@ def do_verify(sid, run_all):
             shutil.copy(os.path.join(d, f), work)
         run = None
         if meta.get("demo_cmd"):
-            run = meta["demo_cmd"].split()
+            import shlex
+            run = shlex.split(meta["demo_cmd"])
         else:
             run = ["go", "test", "-count=1", "-vet=off", "."]
         # 1. demo passes without the change
